@@ -123,3 +123,55 @@ func HarnessC14ModulesRunOnceSharedSeparate() {
 		verifrt.Assert(n <= 1 || c.name == "from-import-symbol" || c.name == "from-import-and-import", c.name+":importer-asked-once-per-module")
 	}
 }
+
+// HarnessC14ModulesAcrossPieces: in an incremental session (one compiler, one
+// VM, a piece at a time) an imported module keeps its own globals: its
+// functions keep working on the module's variables after later pieces added
+// globals to the importer, and the importer's variables of the same names stay
+// separate.
+func HarnessC14ModulesAcrossPieces() {
+	a, b := verifrt.Int64(), verifrt.Int64()
+	s := newReplSession((&scriptEnv{}).addInt("a", a).addInt("b", b))
+	names := make([]string, 0, len(s.globals))
+	for n := range s.globals {
+		names = append(names, n)
+	}
+	s.importer = &memImporter{
+		sources: map[string]string{"m": "k := a\nfunc bump() { k = k + 1; return k }\nfunc get() { return k }"},
+		names:   names, calls: map[string]int{},
+	}
+	pieces := []string{
+		"import m",
+		"x := m.bump()",
+		"k := b",
+		"y := 5",
+		"r1 := m.bump()",
+		"k = k + 100",
+		"r2 := m.get()",
+	}
+	piece := ""
+	for i, st := range pieces {
+		if piece == "" {
+			piece = st
+		} else {
+			piece += "\n" + st
+		}
+		if i == len(pieces)-1 || verifrt.Bool() {
+			_, err, stage := s.eval(piece)
+			verifrt.Assert(err == nil, "piece-runs:"+stage)
+			if err != nil {
+				return
+			}
+			piece = ""
+		}
+	}
+	verifrt.Reach("session-done")
+	x, okx := s.get("x")
+	r1, ok1 := s.get("r1")
+	r2, ok2 := s.get("r2")
+	k, okk := s.get("k")
+	verifrt.Assert(okx && x == a+1, "module-function-works-on-the-module-variable")
+	verifrt.Assert(ok1 && r1 == a+2, "module-variable-survives-later-pieces")
+	verifrt.Assert(ok2 && r2 == a+2, "module-variable-untouched-by-the-importer-variable-of-the-same-name")
+	verifrt.Assert(okk && k == b+100, "importer-variable-untouched-by-the-module")
+}
